@@ -122,9 +122,11 @@ def check_engine(R, f, shape_in, shape_out, Q, shift, fwd, prec, seed, sig, in_d
         R.violation(sig + ':complex-in', f'f(i*delta) != i*f(delta): max dev {float(np.max(np.abs(Ai - 1j * A))) if Ai.shape == A.shape else "shape"}')
         return
     x = dense(shape_in, seed, salt=shape_out[0] * 31 + shape_out[1]).astype(cdt)
-    out = R.call(f, x.copy(), sig=sig + ':exception')
+    xin = x.copy()
+    out = R.call(f, xin, sig=sig + ':exception')
     if out is FAILED:
         return
+    R.expect_equal(xin, x, sig + ':input-mutated', 'the transform modified its input array')
     want = (A @ x.ravel().astype(complex))
     scale = float(np.sqrt(np.sum(np.abs(x) ** 2)))
     R.expect_close(np.asarray(out).ravel() if np.asarray(out).shape == tuple(shape_out) else out, want,
@@ -287,6 +289,7 @@ class ExecState:
     def __init__(self, seed):
         self.inputs = _hist_inputs(seed)
         self.last = None
+        self.prev = None
 
 
 def h_fresh(init, seed):
@@ -301,6 +304,8 @@ def h_events(init, hist, st):
 
 
 def h_apply(st, ev, R):
+    if st.last is not None and st.last[1] is not FAILED:
+        st.prev = (st.last[0], st.last[1], np.array(st.last[1], copy=True))   # earlier result object + snapshot of its value
     st.last = None
     if ev == 'p32':
         config.precision = 32
@@ -319,6 +324,11 @@ def h_apply(st, ev, R):
 
 
 def h_check(st, init, hist, R):
+    if st.prev is not None:
+        # a result handed to the caller earlier must not change under later events (no aliasing of executor scratch / caches)
+        pev, pobj, pcopy = st.prev
+        R.expect_equal(np.asarray(pobj), pcopy, 'history:result-aliased-to-executor-state',
+                       f'the array returned by {pev} changed after later events {hist[-1:]} (history {hist})')
     if st.last is None:
         R.outcome('config')
         return
@@ -326,6 +336,7 @@ def h_check(st, init, hist, R):
     if out is FAILED:
         return
     ex, meth, ik, Q, so, sh, fwd = CALLS[ev]
+    R.expect_equal(x, st.inputs[ik], f'history:{meth}:input-mutated', f'{ev} modified its input array')
     prec = 32 if config.precision is np.float32 else 64
     # (a) same call on a fresh executor under the same precision: bit-identical values and dtype
     fresh = fttools.MatrixDFTExecutor() if ex == 'mdft' else fttools.ChirpZTransformExecutor()
